@@ -25,7 +25,7 @@ echo "CONFIRM $PROP/$N suite_failures=[${suite}] demo_with_patch=[${demo_with}] 
 PROPS=${@:-$PROP}
 git -C /repo apply /tmp/seed-rebased-$PROP-$N.diff || { echo "cannot apply to /repo"; exit 3; }
 for P in $PROPS; do
-  out=$(cd /verif && ./check $P 2>/dev/null | tail -1); rc=$?
+  out=$(cd /verif && VERIF_NO_EVIDENCE=1 ./check $P 2>/dev/null | tail -1); rc=$?
   echo "CHECK $PROP/$N on $P: $out"
 done
 git -C /repo checkout -- .
